@@ -18,7 +18,7 @@ Inductive val :=
 | VList (l : list Z)
 | VFunc (nonnil : bool).      (* a function value: only its nil-ness is observable here *)
 
-Inductive binop := BAdd | BSub | BMul | BLt | BLe | BGt | BGe | BEq | BNe | BAnd | BOr.
+Inductive binop := BAdd | BSub | BMul | BLt | BLe | BGt | BGe | BEq | BNe | BAnd | BOr | BMin | BMax.   (* BMin/BMax: the builtins min, max *)
 
 Inductive expr :=
 | EVar (x : string)
@@ -68,6 +68,8 @@ Definition eval_bin (op : binop) (a b : val) : option val :=
   | BAdd, VInt x, VInt y => Some (VInt (x + y))
   | BSub, VInt x, VInt y => Some (VInt (x - y))
   | BMul, VInt x, VInt y => Some (VInt (x * y))
+  | BMin, VInt x, VInt y => Some (VInt (Z.min x y))
+  | BMax, VInt x, VInt y => Some (VInt (Z.max x y))
   | BLt, VInt x, VInt y => Some (VBool (x <? y))
   | BLe, VInt x, VInt y => Some (VBool (x <=? y))
   | BGt, VInt x, VInt y => Some (VBool (x >? y))
